@@ -1027,6 +1027,27 @@ func checkBorderContiguity(p *Prog, r *Roles, res *Result, sp *ssa.Package) {
 		// adjusted end must be an index key of the decoded user key (never a mid-version key)
 		for i, es := range endStores {
 			construct := fmt.Sprintf("%s: adjusted end border #%d is an index key", funcName(f), i+1)
+			// the realignment of one border may sit in a helper of the package: h(border) returns the border itself where
+			// it does not decode to a version key and the index key of the decoded user key otherwise
+			if hc, ok := p.resolveDeep(es.Val).(*ssa.Call); ok && !r.is(hc, r.EncRev) && !r.is(hc, r.EncObj) {
+				if h := hc.Common().StaticCallee(); h != nil && h.Blocks != nil && h.Pkg == f.Pkg && !hc.Common().IsInvoke() {
+					why, good := judgeAlignHelper(p, r, h)
+					if good {
+						res.ok("C13-R5", construct, p.pos(es.Pos()), why)
+						c2 := fmt.Sprintf("%s: every mid-version end border #%d is realigned", funcName(f), i+1)
+						res.ok("C13-R5", c2, p.pos(es.Pos()), "by "+funcName(h)+": the border is returned unchanged only where it did not decode to a version key")
+						c3 := fmt.Sprintf("%s: the end border #%d of every partition but the last is decoded", funcName(f), i+1)
+						if at, path := skipsInLoop(hc); at != nil {
+							res.bad("C13-R5", c3, p.pos(hc.Pos()), "an iteration can go on to the next partition without decoding the end border of this one, although it is not the last: "+blockPath(p, path))
+						} else {
+							res.ok("C13-R5", c3, p.pos(hc.Pos()), "only the last partition skips the decoder")
+						}
+					} else {
+						res.bad("C13-R5", construct, p.pos(es.Pos()), why)
+					}
+					continue
+				}
+			}
 			kp := p.keyProvenance(es.Val)
 			if kp.Kind == keyIndex {
 				res.ok("C13-R5", construct, p.pos(es.Pos()), "EncodeRevisionKey / EncodeObjectKey(.., 0) of the decoded user key")
@@ -1044,76 +1065,10 @@ func checkBorderContiguity(p *Prog, r *Roles, res *Result, sp *ssa.Package) {
 			// .. and every border but the last one is looked at: no iteration goes on to the next partition without
 			// having decoded its end, except where the index was found to be the last one (a second, home-made test of
 			// "is this a version key" in front of the decoder lets borders through that the decoder would have recognised)
-			if lp := loopOf(dc.Block()); lp != nil {
-				var header *ssa.BasicBlock
-				for hb := range lp {
-					for _, pr := range hb.Preds {
-						if !lp[pr] {
-							header = hb
-						}
-					}
-				}
+			{
 				c3 := fmt.Sprintf("%s: the end border #%d of every partition but the last is decoded", funcName(f), i+1)
-				if header != nil {
-					isLastTest := func(cf condFact) bool {
-						if cf.X == nil || !((cf.Op == token.EQL && cf.Want) || (cf.Op == token.NEQ && !cf.Want)) {
-							return false
-						}
-						for _, v := range []ssa.Value{cf.X, cf.Y} {
-							if bo, ok := resolve(v).(*ssa.BinOp); ok && bo.Op == token.SUB {
-								if k, ok := constInt(bo.Y); ok && k == 1 {
-									if lc, ok := resolve(bo.X).(*ssa.Call); ok {
-										if bi, ok := lc.Common().Value.(*ssa.Builtin); ok && bi.Name() == "len" {
-											return true
-										}
-									}
-								}
-							}
-						}
-						return false
-					}
-					var skipAt ssa.Instruction
-					var skipPath []*ssa.BasicBlock
-					for _, sb := range header.Succs {
-						if !lp[sb] {
-							continue
-						}
-						first := true
-						ins, path := searchFrom(sb, 0, searchOpts{
-							stop: func(i ssa.Instruction) bool { return i == ssa.Instruction(dc) },
-							bad: func(i ssa.Instruction) bool {
-								if _, isRet := i.(*ssa.Return); isRet {
-									return false
-								}
-								if i.Block() == header {
-									if first && sb == header {
-										first = false
-										return false
-									}
-									return true
-								}
-								return false
-							},
-							skipEdge: func(from *ssa.BasicBlock, si int) bool {
-								if !lp[from.Succs[si]] {
-									return true // leaves the loop
-								}
-								if ifOf(from) == nil {
-									return false
-								}
-								for _, cf := range expandFact(edgeFact(edge{from, si}), 0) {
-									if isLastTest(cf) {
-										return true
-									}
-								}
-								return false
-							},
-						})
-						if ins != nil {
-							skipAt, skipPath = ins, path
-						}
-					}
-					if skipAt != nil {
+				if loopOf(dc.Block()) != nil {
+					if skipAt, skipPath := skipsInLoop(dc); skipAt != nil {
 						res.bad("C13-R5", c3, p.pos(dc.Pos()), "an iteration can go on to the next partition without decoding the end border of this one, although it is not the last: a border inside one key's versions that the extra test does not recognise stays where the engine put it, and that key is split between two workers (returned twice, counted twice): "+blockPath(p, skipPath))
 					} else {
 						res.ok("C13-R5", c3, p.pos(dc.Pos()), "only the last partition skips the decoder")
@@ -1580,4 +1535,196 @@ func reachingStoreValues(al *ssa.Alloc) []ssa.Value {
 		}
 	}
 	return out
+}
+
+// skipsInLoop: can an iteration of the loop around instruction `look` go on to the next iteration without passing it,
+// other than over an edge on which the loop index was found to be the last one (index == len(..)-1)?
+func skipsInLoop(look ssa.Instruction) (ssa.Instruction, []*ssa.BasicBlock) {
+	lp := loopOf(look.Block())
+	if lp == nil {
+		return nil, nil
+	}
+	var header *ssa.BasicBlock
+	for hb := range lp {
+		for _, pr := range hb.Preds {
+			if !lp[pr] {
+				header = hb
+			}
+		}
+	}
+	if header == nil {
+		return nil, nil
+	}
+	isLastTest := func(cf condFact) bool {
+		if cf.X == nil || !((cf.Op == token.EQL && cf.Want) || (cf.Op == token.NEQ && !cf.Want)) {
+			return false
+		}
+		for _, v := range []ssa.Value{cf.X, cf.Y} {
+			if bo, ok := resolve(v).(*ssa.BinOp); ok && bo.Op == token.SUB {
+				if k, ok := constInt(bo.Y); ok && k == 1 {
+					if lc, ok := resolve(bo.X).(*ssa.Call); ok {
+						if bi, ok := lc.Common().Value.(*ssa.Builtin); ok && bi.Name() == "len" {
+							return true
+						}
+					}
+				}
+			}
+		}
+		return false
+	}
+	var skipAt ssa.Instruction
+	var skipPath []*ssa.BasicBlock
+	for _, sb := range header.Succs {
+		if !lp[sb] {
+			continue
+		}
+		ins, path := searchFrom(sb, 0, searchOpts{
+			stop: func(i ssa.Instruction) bool { return i == look },
+			bad: func(i ssa.Instruction) bool {
+				if _, isRet := i.(*ssa.Return); isRet {
+					return false
+				}
+				return i.Block() == header
+			},
+			skipEdge: func(from *ssa.BasicBlock, si int) bool {
+				if !lp[from.Succs[si]] {
+					return true // leaves the loop
+				}
+				if ifOf(from) == nil {
+					return false
+				}
+				for _, cf := range expandFact(edgeFact(edge{from, si}), 0) {
+					if isLastTest(cf) {
+						return true
+					}
+				}
+				return false
+			},
+		})
+		if ins != nil {
+			skipAt, skipPath = ins, path
+		}
+	}
+	return skipAt, skipPath
+}
+
+// judgeAlignHelper: h(border) decodes its parameter on every path and returns the parameter itself only over an edge
+// on which the decoder failed or the decoded revision is 0, and otherwise the index key of the decoded user key.
+func judgeAlignHelper(p *Prog, r *Roles, h *ssa.Function) (string, bool) {
+	var prm *ssa.Parameter
+	for _, q := range h.Params {
+		if sl, ok := q.Type().Underlying().(*types.Slice); ok {
+			if b, ok := sl.Elem().Underlying().(*types.Basic); ok && b.Kind() == types.Byte {
+				prm = q
+			}
+		}
+	}
+	if prm == nil || h.Signature.Results().Len() != 1 {
+		return "an end border is rewritten to something other than the index key of the user key it splits", false
+	}
+	var dc *ssa.Call
+	for _, c := range callsIn(h) {
+		if cc, ok := c.(*ssa.Call); ok && r.is(c, r.Decode) && resolve(argForSigParam(c, 0)) == ssa.Value(prm) {
+			dc = cc
+		}
+	}
+	if dc == nil {
+		return funcName(h) + " does not decode the border it is handed", false
+	}
+	exs := extractsOf(dc)
+	excuse := func(cf condFact) bool {
+		if cf.X == nil {
+			return false
+		}
+		x, y := resolve(cf.X), resolve(cf.Y)
+		eq := (cf.Op == token.EQL && cf.Want) || (cf.Op == token.NEQ && !cf.Want)
+		ne := (cf.Op == token.NEQ && cf.Want) || (cf.Op == token.EQL && !cf.Want)
+		if len(exs) > 2 && exs[2] != nil && x == ssa.Value(exs[2]) && isNilConst(y) && ne {
+			return true
+		}
+		if len(exs) > 1 && exs[1] != nil && x == ssa.Value(exs[1]) && isZeroConst(y) && eq {
+			return true
+		}
+		return false
+	}
+	var judge func(v ssa.Value, at, to *ssa.BasicBlock, d int) (string, bool)
+	judge = func(v ssa.Value, at, to *ssa.BasicBlock, d int) (string, bool) {
+		v = resolve(v)
+		if d > 4 {
+			return "not recognised", false
+		}
+		if phi, ok := v.(*ssa.Phi); ok {
+			for i, e := range phi.Edges {
+				if why, ok := judge(e, phi.Block().Preds[i], phi.Block(), d+1); !ok {
+					return why, false
+				}
+			}
+			return "", true
+		}
+		if v == ssa.Value(prm) {
+			// unchanged: every path to this point passes an excusing edge
+			target := to
+			okAll, _ := allPathsPass(target, func(e edge) bool {
+				for _, cf := range expandFact(edgeFact(e), 0) {
+					if excuse(cf) {
+						return true
+					}
+				}
+				return false
+			})
+			if at != nil && !okAll {
+				// the value arrives over one particular edge: that edge may be the excusing one
+				if ifOf(at) != nil {
+					for si, sc := range at.Succs {
+						if sc == to && at.Succs[1-si] != to {
+							for _, cf := range expandFact(edgeFact(edge{at, si}), 0) {
+								if excuse(cf) {
+									okAll = true
+								}
+							}
+						}
+					}
+				}
+				if !okAll {
+					okAll, _ = allPathsPass(at, func(e edge) bool {
+						for _, cf := range expandFact(edgeFact(e), 0) {
+							if excuse(cf) {
+								return true
+							}
+						}
+						return false
+					})
+				}
+			}
+			if okAll {
+				return "", true
+			}
+			return "an end border that lies inside one key's versions can be left where it is (" + funcName(h) + " returns it unchanged on a path on which it decoded to a version key): that key is then split between two workers and returned twice", false
+		}
+		kp := p.keyProvenance(v)
+		if kp.Kind == keyIndex {
+			if c, idx, ok := extractOf(kp.RawKey); ok && idx == 0 && c == dc {
+				return "", true
+			}
+		}
+		return "an end border is rewritten to something other than the index key of the user key it splits", false
+	}
+	n := 0
+	for _, b := range h.Blocks {
+		ret, ok := b.Instrs[len(b.Instrs)-1].(*ssa.Return)
+		if !ok || b.Comment == "recover" {
+			continue
+		}
+		n++
+		if !instrDominates(dc, ret) {
+			return funcName(h) + " returns on a path on which it has not decoded the border", false
+		}
+		if why, ok := judge(ret.Results[0], nil, b, 0); !ok {
+			return why, false
+		}
+	}
+	if n == 0 {
+		return "not recognised", false
+	}
+	return "realigned by " + funcName(h) + ": the index key of the decoded user key, or the border itself where it is not a version key", true
 }
